@@ -186,7 +186,10 @@ func runPlan(t *testing.T, pl any) *simcore.Result {
 	for _, n := range names {
 		lh = lh.String(n).U64(uint64(rn.logs[n]))
 	}
-	res.LogHash = uint64(lh.U64(res.SchedFP))
+	// the determinism fingerprint is what the actors observed, not the released-gate
+	// sequence: the order in which geth walks its maps (batch contents, revert of
+	// node sets) changes gate labels between executions without changing outcomes
+	res.LogHash = uint64(lh)
 	if rn.viol != nil {
 		res.Fail(rn.viol)
 	}
